@@ -39,6 +39,18 @@ def hexs(s):
     return s.encode().hex() or '00'
 
 
+CV_SCALE = 1024   # custom_totals may be floats: dyadic multiples of 1/1024 (exact float sums) go to the model as integers
+
+
+def cvlist(v):
+    """custom totals scaled by CV_SCALE; an entry that is not an exact multiple of 1/CV_SCALE is shown as a fraction"""
+    out = []
+    for x in v:
+        f = Fraction(x) * CV_SCALE if not isinstance(x, bool) else Fraction(int(x)) * CV_SCALE
+        out.append(str(f.numerator) if f.denominator == 1 else '{}/{}'.format(f.numerator, f.denominator))
+    return ','.join(out) if out else '_'
+
+
 def rec_wire(r):
     def arr(k):
         if k not in r:
@@ -46,7 +58,7 @@ def rec_wire(r):
         v = r[k]
         if v is None:
             return 'N'
-        return ('l' if isinstance(v, list) else 't') + ilist(v)
+        return ('l' if isinstance(v, list) else 't') + (cvlist(v) if k == 'custom_totals' else ilist(v))
     nkd = r['n_k_d']
     return ';'.join([
         hexs(r['code']), ','.join('N' if x is None else str(x) for x in nkd) if len(nkd) else '_',
@@ -70,7 +82,7 @@ def group_wire(g):
         hexs(g['error_model']), hexs(g['decoder']), rat(Fraction(g['error_probability'])), str(g['time_steps']),
         rat(Fraction(g['measurement_error_probability'])), str(g['n_run']), str(g['n_success']), str(g['n_fail']),
         str(g['error_weight_total']), rat(Fraction(g['wall_time'])), f(g['n_logical_commutations']),
-        f(g['custom_totals']), fhex(g['logical_failure_rate']), fhex(g['physical_error_rate'])])
+        'N' if g['custom_totals'] is None else cvlist(g['custom_totals']), fhex(g['logical_failure_rate']), fhex(g['physical_error_rate'])])
 
 
 def post(reply):
@@ -160,7 +172,10 @@ def make_record(rng, proto, lcl, cvl, allow_legacy=True, zero=False):
     r.update({'n_run': n_run, 'n_fail': n_fail, 'n_success': n_run - n_fail,
               'error_weight_total': rng.randint(0, 200), 'wall_time': rng.randint(0, 4096) / 1024.0,
               'n_logical_commutations': None if lcl is None else tuple(rng.randint(0, n_run) for _ in range(lcl)),
-              'custom_totals': None if cvl is None else tuple(rng.randint(-9, 99) for _ in range(cvl)),
+              # custom values are arbitrary numbers: integers, or floats with a fractional part (dyadic, so that float
+              # sums are exact), mixed within one vector
+              'custom_totals': None if cvl is None else tuple(
+                  rng.randint(-9, 99) if rng.random() < 0.6 else rng.randint(-4096, 99 * 1024) / 1024.0 for _ in range(cvl)),
               'error_weight_pvar': 0.5, 'logical_failure_rate': 0.25, 'physical_error_rate': 0.125})
     for k in ('error_probability', 'measurement_error_probability'):  # ints vs equal floats: the same group
         if r[k] == int(r[k]) and rng.random() < 0.4:
@@ -299,6 +314,8 @@ def parse_rec(w):
             r[k] = None
         else:
             v = [] if w_[1:] == '_' else [int(x) for x in w_[1:].split(',')]
+            if k == 'custom_totals':
+                v = [x // CV_SCALE if x % CV_SCALE == 0 else x / CV_SCALE for x in v]
             r[k] = v if w_[0] == 'l' else tuple(v)
     return r
 
